@@ -1657,6 +1657,8 @@ int ov_pcm_seek_page(OggVorbis_File *vf,ogg_int64_t pos){
 
       ogg_page og;
       ogg_packet op;
+      ogg_int64_t bestgran;
+      int requeued=0;
 
       /* seek */
       result=_seek_helper(vf,best);
@@ -1664,6 +1666,7 @@ int ov_pcm_seek_page(OggVorbis_File *vf,ogg_int64_t pos){
       if(result) goto seek_error;
       result=_get_next_page(vf,&og,-1);
       if(result<0) goto seek_error;
+      bestgran=ogg_page_granulepos(&og);
 
       if(link!=vf->current_link || vf->ready_state<STREAMSET){
         /* Different link (or no stream state left); dump entire decode
@@ -1689,26 +1692,50 @@ int ov_pcm_seek_page(OggVorbis_File *vf,ogg_int64_t pos){
              pointing to a page with a granule position, so the packet
              finishing this page ('best') originated on a preceding
              page. Keep fetching previous pages until we get one with
-             a granulepos or without the 'continued' flag set.  Then
-             just use raw_seek for simplicity. */
+             a granulepos or without the 'continued' flag set; that
+             packet begins there.  Queue the pages from there up to
+             and including 'best' and drop, below, everything queued
+             ahead of the packet that carries the granulepos of
+             'best' (a raw seek to the earlier page would land a page
+             boundary short of what a page seek promises). */
           /* Do not rewind past the beginning of link data; if we do,
              it's either a bug or a broken stream */
-          result=best;
-          while(result>vf->dataoffsets[link]){
-            result=_get_prev_page(vf,result,&og);
-            if(result<0) goto seek_error;
+          ogg_int64_t from=best;
+          if(requeued){
+            result=OV_EBADLINK;
+            goto seek_error;
+          }
+          while(1){
+            if(from<=vf->dataoffsets[link]){
+              result=OV_EBADLINK;
+              goto seek_error;
+            }
+            from=_get_prev_page(vf,from,&og);
+            if(from<0){
+              result=from;
+              goto seek_error;
+            }
             if(ogg_page_serialno(&og)==vf->current_serialno &&
                (ogg_page_granulepos(&og)>-1 ||
-                !ogg_page_continued(&og))){
-              return ov_raw_seek(vf,result);
-            }
+                !ogg_page_continued(&og)))break;
           }
+          result=_seek_helper(vf,from);
+          if(result) goto seek_error;
+          ogg_stream_reset_serialno(&vf->os,vf->current_serialno);
+          do{
+            result=_get_next_page(vf,&og,-1);
+            if(result<0) goto seek_error;
+            if(ogg_page_serialno(&og)==vf->current_serialno)
+              ogg_stream_pagein(&vf->os,&og);
+          }while(result<best);
+          requeued=1;
+          continue;
         }
         if(result<0){
           result = OV_EBADPACKET;
           goto seek_error;
         }
-        if(op.granulepos!=-1){
+        if(op.granulepos==bestgran){
           vf->pcm_offset=op.granulepos-vf->pcmlengths[vf->current_link*2];
           if(vf->pcm_offset<0)vf->pcm_offset=0;
           vf->pcm_offset+=total;
